@@ -251,6 +251,12 @@ def r6(ctx):
             continue
         if callee:
             ss = [s for s, t_ in fa.calls() if (callee_of(t_) == callee or (t_.get("callee") or "").endswith(callee)) and any(s in body and nx[0] in body for _, body, _ in fa.loops())]
+            if not ss and fn == MT_COMMIT:
+                # through the tree's own add_node, which files its argument under `unflushed` on every path
+                fad = ctx.fn(MT_ADD_NODE)
+                ins = [s_ for s_, t_ in fad.calls() if (t_.get("callee") or "").endswith("IntMap::<V>::insert") and "unflushed" in term_str(fad.arg_origin(s_, 0))] if fad is not None else []
+                if ins and (ins[0] == 0 or fad.postdominates(ins[0], 0)):   # block 0 is the entry
+                    ss = [s for s, t_ in fa.calls() if callee_of(t_) == MT_ADD_NODE and any(s in body and nx[0] in body for _, body, _ in fa.loops())]
         else:
             ss = [s for s, t in fa.calls() if (t.get("callee") or "").split("::")[-1] in ("extend_from_slice", "insert", "push") and any(s in body and nx[0] in body for _, body, _ in fa.loops())]
         if not need(ctx, P, rule, "%s: per-element action" % fn.split("::")[-1], ss):
